@@ -350,22 +350,38 @@ def units(tier):
                     us.append(dict(gravity='TRACE', N=N, na=na, tpt=tpt, git=0, ghost=None, Ks=ks))
     return us
 
+def run_any(u):
+    if u.get('what') == 'tree':
+        sys.path.insert(0, os.path.dirname(os.path.abspath(__file__)))
+        import c15
+        rep = c15.run_tree(u)
+        for v in rep.violations: v['key'] = v['key'].replace('C15:tree', 'C02:tree')
+        return rep
+    return run_unit(u)
+
 def main():
     tier = os.environ.get('VERIF_TIER') or (sys.argv[1] if len(sys.argv) > 1 else 'quick')
     t0 = time.time()
     build.module(); build.layout(); build.build_native()
     us = units(tier)
-    rep = run_units(us, run_unit)
+    # the tree routine: units shared with C15 (checks/c15.py run_tree): opening angle 0 == pairwise sum, finite opening angle + softening == Barnes-Hut definition
+    tree_us = [dict(what='tree', N=2, sep=2, axes=('x', 'y')), dict(what='tree', N=3, sep=2, axes=('x',)), dict(what='tree', N=2, sep=2, axes=('x',), theta=True)]
+    if tier == 'thorough': tree_us.append(dict(what='tree', N=3, sep=2, axes=('x',), theta=True, t_ms=30000))
+    rep = run_units(us + tree_us, run_any)
     Nmax = max(u['N'] for u in us)
     code = finish(PID, tier, rep, t0,
-        bounds=dict(N_max=Nmax, configurations=len(us), routines=['NONE', 'BASIC', 'COMPENSATED', 'MERCURIUS mode0+mode1', 'TRACE interaction+kepler'], ghost_boxes='N_ghost in {0,1} per axis, PERIODIC', loop_unwinding='concrete (N is concrete per configuration)'),
+        bounds=dict(N_max=Nmax, configurations=len(us), routines=['NONE', 'BASIC', 'COMPENSATED', 'MERCURIUS mode0+mode1', 'TRACE interaction+kepler', 'TREE (N<=3, one root box, opening angle 0 and symbolic finite opening angle with softening)'], ghost_boxes='N_ghost in {0,1} per axis, PERIODIC', loop_unwinding='concrete (N is concrete per configuration)'),
         assumptions=['masses >= 0, G > 0, softening >= 0, box > 0', 'malloc never fails', 'sqrt uninterpreted (first pass) / s>=0 & s*s=t (axioms)', 'MERCURIUS switching function L: arbitrary function of (d,dcrit) (stub)', 'TRACE current_Ks: enumerated 0/1 matrices; encounter map = identity over all particles', 'self-images in ghost boxes excluded (as in both compiled variants of the loop)'],
-        outside=['rounding error magnitude', 'N > %d' % Nmax, 'tree code (finite and zero opening angle) — see C15 for the tree invariants', 'JACOBI routine (covered with the WHFast interaction step in C01/C12)', 'OPENMP/MPI/AVX512 variants (not compiled)'],
+        outside=['rounding error magnitude', 'N > %d' % Nmax, 'tree code beyond N = 3 / one root box / no ghost boxes; multipole ERROR BOUNDS of the finite-opening-angle tree force (only its definition is decided); quadrupole variant (not compiled)', 'JACOBI routine (covered with the WHFast interaction step in C01/C12)', 'OPENMP/MPI/AVX512 variants (not compiled)'],
         domain_note='REAL: exact real arithmetic, sqrt as uninterpreted function with instantiated axioms; rounding error magnitude is outside the claim')
     sys.exit(code)
 
 
 def replay(data):
+    if data.get('kind') == 'tree':
+        sys.path.insert(0, os.path.dirname(os.path.abspath(__file__)))
+        import c15
+        return c15.native_tree(data['unit'], data['vals'])
     u = data['unit']
     if u.get('ghost'): u['ghost'] = tuple(u['ghost'])
     if 'Ks' in u: u['Ks'] = [tuple(p) for p in u['Ks']]
